@@ -418,7 +418,7 @@ fn postfix_binding_power(op: TokenKind) -> Option<(u8, ())> {
 
 fn prefix_binding_power(op: TokenKind) -> Option<u8> {
     match op {
-        T![-] | T![!] => Some(23),
+        T![-] | T![!] => Some(20),
         _ => None,
     }
 }
